@@ -148,7 +148,8 @@ def tree(r: Any, names=None) -> dict:
             return {
                 "k": "sel",
                 "sort": [{"e": expr(t.expression), "asc": bool(t.ascending)} for t in r.sort.terms],
-                "proj": "none" if r.projection is None else cols(r.projection.columns),
+                "proj": {"some": False, "cols": []} if r.projection is None
+                else {"some": True, "cols": cols(r.projection.columns)},
                 "dedup": r.deduplication is not None,
                 "a": r.slice.start,
                 "b": -1 if r.slice.stop is None else r.slice.stop,
